@@ -32,18 +32,24 @@ def judge(ctx, proto, job, r):
             return
 
 
+def sample(ctx, proto, pairs):
+    big = max((p for p in pairs if "res" in p[1] and p[1]["res"]), key=lambda p: max(x.get("alloc", 0) for x in p[1]["res"]))
+    ctx.sample({"proto": proto, "history": big[0]["msgs"], "alloc_bytes": [x.get("alloc") for x in big[1]["res"]],
+                "records": [x.get("nrec") for x in big[1]["res"]]})
+
+
 def check(ctx):
     thorough = ctx.tier == "thorough"
     ctx.rule = ("same histories as C01 (TLC grammar-boundary enumeration, on which TLC proves Total/Progress/OutBounded for the "
                 "reference collector, plus seeded mutations); per datagram the real decoder's record count (<= octets), allocated "
                 "bytes (runtime.MemStats.TotalAlloc delta <= 64KiB + 128 x octets x (1 + fields of the largest cached template)) "
                 "and time (< 2 s; a 5 s / 1 GiB watchdog kills and reports) are measured. Non-trivial: header accepted.")
-    ctx.assumptions += ["allocation bound: linear in the datagram's octets per template field already received; TotalAlloc deltas are coarse",
+    ctx.assumptions += ["quick tier measures every 3rd TLC history (offset by the seed) plus 8000 seeded mutants per protocol; thorough all",
+                        "allocation bound: linear in the datagram's octets per template field already received; TotalAlloc deltas are coarse",
                         "time bound is three orders of magnitude above the normal cost (microseconds)"]
-    n = 200000 if thorough else 20000
-    pairs = fuzzrun.ipfix(ctx, thorough, n)
-    for job, r in pairs:
-        judge(ctx, "ipfix", job, r)
-    big = max((p for p in pairs if "res" in p[1] and p[1]["res"]), key=lambda p: max(x.get("alloc", 0) for x in p[1]["res"]))
-    ctx.sample({"proto": "ipfix", "history": big[0]["msgs"], "alloc_bytes": [x.get("alloc") for x in big[1]["res"]],
-                "records": [x.get("nrec") for x in big[1]["res"]]})
+    n = 200000 if thorough else 8000
+    for proto in ("ipfix", "v9"):
+        pairs = fuzzrun.flow(ctx, proto, thorough, n, stride=1 if thorough else 3)
+        for job, r in pairs:
+            judge(ctx, proto, job, r)
+        sample(ctx, proto, pairs)
